@@ -37,6 +37,8 @@ ILLEGAL = [
     ("name", "space"), ("name", "crlf"), ("name", "empty"), ("name", "nul"), ("name", "colon-inside"),
     ("value", "crlf-inject"), ("value", "lf"), ("value", "cr"), ("value", "nul"),
     ("method", "trailing-lf"), ("name", "trailing-lf"), ("value", "trailing-lf"), ("target", "trailing-lf"),
+    # the caller's own Host header (on HTTP/2 its value is what goes out as :authority)
+    ("host", "crlf-inject"), ("host", "nul"), ("host", "lf"), ("host", "cr"),
 ]
 
 
@@ -122,7 +124,13 @@ def corrupt(req):
             i = 0
         headers[i][0 if where == "name" else 1] += "\n"
         return method, headers, ext
-    if where == "method":
+    if where == "host":
+        hs = [h for h in headers if h[0].lower() == "host"]
+        if not hs:
+            headers.insert(req.get("illegal_at", 0) % (len(headers) + 1), ["Host", "h.example"])
+            hs = [h for h in headers if h[0].lower() == "host"]
+        hs[0][1] = "h" + bad[kind] + "x.example"
+    elif where == "method":
         method = "" if kind == "empty" else method[:1] + bad[kind] + method[1:]
     elif where == "target":
         base = ext if ext is not None else b"/p"
